@@ -182,6 +182,42 @@ func main() {
 		atomic.AddInt64(&extra, 2)
 	})
 	n += extra
+	// fault enumeration on the writer: every base message, EncodeFrame into a writer that fails after k bytes for
+	// every k, then the probe frame on the same codec (nothing of the aborted frame may be left behind)
+	type wf struct {
+		v    gen.V
+		name string
+		msg  message.Message
+	}
+	var wfs []wf
+	for _, v := range gen.Versions {
+		for _, b := range gen.BasesPublic(v) {
+			if gen.ValidMsgPublic(b.Msg, v) {
+				wfs = append(wfs, wf{v, b.Name, b.Msg})
+			}
+		}
+	}
+	vlib.ParFor(len(wfs), func(i int) {
+		w := wfs[i]
+		for _, comp := range fcheck.Compressions(w.v) {
+			codec := fcheck.Codec(comp)
+			f := frame.NewFrame(w.v, 1, gen.Clone(w.msg).(message.Message))
+			if comp != primitive.CompressionNone && fcheck.Compressible(f) {
+				f.Header.Flags |= primitive.HeaderFlagCompressed
+			}
+			full := &bytes.Buffer{}
+			if err := codec.EncodeFrame(gen.Clone(f).(*frame.Frame), full); err != nil {
+				continue
+			}
+			for k := 0; k < full.Len(); k++ {
+				atomic.AddInt64(&histories, 1)
+				_ = codec.EncodeFrame(gen.Clone(f).(*frame.Frame), &failingWriter{left: k}) // whether it reports the failure is not this property's business
+				if comp != primitive.CompressionNone {
+					probe(gen.Case{Name: fmt.Sprintf("%v/%s/write-failure-at-%d", w.v, w.name, k), Frame: f, Invalid: true}, comp, codec)
+				}
+			}
+		}
+	})
 	c.Sample(map[string]interface{}{"case": "first", "note": "cases are named version/KIND.variant/fieldpath=alternative"})
 	c.Set("states", int64(len(distinct)))
 	c.Set("transitions", evals)
@@ -206,4 +242,17 @@ func trim(b []byte) []byte {
 		return b[:2048]
 	}
 	return b
+}
+
+// failingWriter accepts `left` bytes, then fails.
+type failingWriter struct{ left int }
+
+func (w *failingWriter) Write(p []byte) (int, error) {
+	if len(p) <= w.left {
+		w.left -= len(p)
+		return len(p), nil
+	}
+	n := w.left
+	w.left = 0
+	return n, fmt.Errorf("injected write failure")
 }
